@@ -77,7 +77,9 @@ ScopeOK(prog, lay) ==
       LET fn == AsFun(d)
           S == {j \in 1..Len(lay) : lay[j].name = d.name /\ lay[j].np = Len(d.params)}
       IN \A j \in S : /\ SetOf(lay[j].locals) = FunLocals(fn)
-                      /\ SetOf(lay[j].cells) = CapturedOf(fn)
+                      /\ CapturedOf(fn) \subseteq SetOf(lay[j].cells)          \* every captured variable has a cell ...
+                      /\ SetOf(lay[j].cells) \subseteq FunLocals(fn)          \* ... and only locals have cells (the engine also gives
+                                                                              \* `arguments` one when an inner function mentions its own)
                       /\ lay[j].frees = <<>>
 EqVerdict(r) ==
   LET o1 == r.obs[1]
